@@ -7,8 +7,8 @@ EXTENDS LiquidGen, LiquidAst
 
 CONSTANT Name    \* "x" | "now" | "today"
 
-Sub(on, v) == IF on THEN <<<<Name, Str(v)>>>> ELSE <<>>
-MCData == {<<Sub(a, "ARG"), Sub(m, "MATTER"), Sub(t, "TGLOBAL"), Sub(e, "EGLOBAL")>> :
+LayerOf(on, v) == IF on THEN <<<<Name, Str(v)>>>> ELSE <<>>
+MCData == {<<LayerOf(a, "ARG"), LayerOf(m, "MATTER"), LayerOf(t, "TGLOBAL"), LayerOf(e, "EGLOBAL")>> :
              a \in BOOLEAN, m \in BOOLEAN, t \in BOOLEAN, e \in BOOLEAN}
 MCCfgs == {Cfg("+", TRUE, FALSE, "default")}
 MCPartials == << <<"p", <<NText("(p:"), NOut(P(V(Name))), NText(")")>>>> >>
